@@ -140,6 +140,8 @@ def f_minpoly(v):
     l = v.l
     s = [(v.a >> (2 * l - 1 - i)) & 1 for i in range(2 * l)]        # first element = bit 2l - 1
     C, L = P.min_poly(s)
+    if L > l:
+        return dict(b=None)       # no recurrence of order <= l generates the 2l terms: pp.h does not say what is returned
     # connection polynomial C (c_0 = 1, degree <= L) -> characteristic (minimal) polynomial x^L * C(1/x)
     mp = 0
     for i in range(L + 1):
@@ -174,3 +176,5 @@ CAT['ppInvMod'].cls = CAT['ppDivMod'].cls = _cls_ppinv
 for _n in ('ppDiv', 'ppMod'):
     CAT[_n].cls = lambda v: 'deg(b)=0' if v.b == 1 else None
 CAT['ppRed'].cls = lambda v: 'mod=1' if v.mod == 1 else None
+for _n in ('ppGCD', 'ppExGCD', 'ppInvMod', 'ppDivMod', 'ppDiv', 'ppMod'):
+    CAT[_n].weight = 3
